@@ -8,7 +8,7 @@ var stdAssume = []string{
 var props = map[string]*propCfg{
 	"C02": {
 		Engine: "parsesim", Level: "exploration",
-		QuickRuns: 40000, ThoroughRuns: 20000000, QuickSeconds: 45, ThoroughSeconds: 1500, TimeoutS: 20,
+		QuickRuns: 80000, ThoroughRuns: 20000000, QuickSeconds: 45, ThoroughSeconds: 1500, TimeoutS: 20,
 		Rule:        "one run = a generated world of 1-6 template files under one of 7 delimiter configurations (default, [[ ]], single-byte, multi-byte UTF-8, action and comment delimiters sharing a first byte, custom comment only, long), one file mutated (truncate at a byte offset, delete/duplicate/swap chunks, splice lexer-relevant fragments inside actions, replace bytes; or one of 8 ground-truth structural mistakes), a loader fault plan for the files reached through extends/import, then Set.Parse and Set.GetTemplate for every file, each call in its own testing/synctest bubble inside an isolated worker process. Judged: worker survives (a lexer-goroutine panic kills it), no panic escapes, (template, nil) or (_, error), no goroutine left blocked after the call, syntax errors name a file of the set and a line inside it, ground-truth mistakes are rejected, no hang (per-run watchdog). Every run is non-trivial (it parses); distinct = hash of (delimiters, mutated source, world size, faults).",
 		Assumptions: append([]string{"which strings are tried is input generation; the simulator contributes the crash boundary (worker process), the goroutine-lifecycle oracle (synctest bubble), the watchdog and the loader-fault dimension", "sources are capped at 4 KiB"}, stdAssume...),
 		Real:        []string{"lexer (goroutine + channel)", "parser", "Set.Parse / GetTemplate / extends+import resolution", "InMemLoader", "default cache"},
@@ -24,7 +24,7 @@ var props = map[string]*propCfg{
 	},
 	"C15": {
 		Engine: "loadersim", Level: "exploration",
-		QuickRuns: 40000, ThoroughRuns: 10000000, QuickSeconds: 45, ThoroughSeconds: 1500, TimeoutS: 30,
+		QuickRuns: 80000, ThoroughRuns: 10000000, QuickSeconds: 45, ThoroughSeconds: 1500, TimeoutS: 30,
 		Rule:        "one run = a history of 3-10 references (GetTemplate, Parse, extends, import, include literal and computed from data, exec, includeIfExists) with tape-spelled names (absolute/relative, ./ ../ // segments at any position, more .. than the depth, trailing slash, names aimed at a canary outside the root) from referrers at directory depth 0-3 under 4 extension lists, default or recording cache, normal or development mode; 1 run in 8 on a real directory-rooted OSFileSystemLoader with a canary file outside the root. Invariant on EVERY Loader.Exists/Open and Cache.Get/Put argument: canonical, and in the allowed set {expected(referrer, name, kind)+ext}. Non-trivial = at least one path crossed a seam; distinct = hash of (history, extensions, loader kind).",
 		Assumptions: append([]string{"backslashes are never generated (platform specific)", "the expected canonical form is computed by the harness's own segment-stack normaliser"}, stdAssume...),
 		Real:        []string{"Set (GetTemplate/Parse/getSiblingTemplate)", "parser (extends/import)", "interpreter (include, exec, includeIfExists)", "InMemLoader", "OSFileSystemLoader on a real scratch directory", "default cache"},
@@ -32,7 +32,7 @@ var props = map[string]*propCfg{
 	},
 	"C16": {
 		Engine: "loadersim", Level: "exploration",
-		QuickRuns: 60000, ThoroughRuns: 20000000, QuickSeconds: 45, ThoroughSeconds: 1500, TimeoutS: 30,
+		QuickRuns: 120000, ThoroughRuns: 20000000, QuickSeconds: 45, ThoroughSeconds: 1500, TimeoutS: 30,
 		Rule:        "one run = a history of 4-30 operations (GetTemplate, GetTemplate+Execute with run-time includes, Parse with extends/import, loader Set/Delete with unique version markers, new Set over the same loader, arming loader faults) on 1-2 Sets over one SimLoader, under tape-chosen development mode, default or recording cache and one of 5 extension lists (two candidate extensions may exist); faults stop at a tape-chosen point. Judged per operation against a clause model: identical pointer and zero loader calls on repeat hits; no answer without the loader unless something legitimately cacheable was loaded under that name (failure-cached, put-in-parse); progress once faults stopped; dev mode reloads, renders current versions and never Puts; Exists candidates in configured order and exactly the found path opened. Non-trivial = at least two judged operations; distinct = hash of (history, extensions).",
 		Assumptions: append([]string{"the model is silent where the statement is silent (e.g. whether two spellings share a cache entry; Close discipline)"}, stdAssume...),
 		Real:        []string{"Set (getTemplate, cache probe, extension iteration, loadFromFile)", "default cache (sync.Map)", "parser (extends/import with cacheAfterParsing)", "interpreter (run-time include)", "InMemLoader"},
@@ -40,7 +40,7 @@ var props = map[string]*propCfg{
 	},
 	"C19": {
 		Engine: "loadersim", Level: "exploration",
-		QuickRuns: 30000, ThoroughRuns: 5000000, QuickSeconds: 45, ThoroughSeconds: 1500, TimeoutS: 30,
+		QuickRuns: 40000, ThoroughRuns: 5000000, QuickSeconds: 45, ThoroughSeconds: 1500, TimeoutS: 30,
 		Rule:        "one run = an edit/query history of 3-25 operations against a reference tree (path -> file bytes | directory) on one of: InMemLoader with arbitrary spellings; OSFileSystemLoader over a real per-run scratch directory (WriteFile/MkdirAll/RemoveAll); httpfs over a simulated http.FileSystem with injected Open/Stat/Read errors; embedfs over a static embedded tree (EXHAUSTIVE sweep of its path alphabet to depth 4); multi stacks of 1-3 loaders with overlapping contents and AddLoaders mid-history. Judged per query: Exists(p) iff the reference has a regular file there (never a directory); Exists implies Open reads exactly the reference bytes (multi: those of the first loader in construction order that has the file); after an injected fault that call may fail, never wrong bytes. Non-trivial = at least one query; distinct = hash of (configuration, edit history, query count).",
 		Assumptions: append([]string{"file-system loaders are only queried with clean absolute paths (what a Set produces)", "OSFileSystemLoader runs on the real disk without fault injection; embed.FS cannot be edited at run time"}, stdAssume...),
 		Real:        []string{"InMemLoader", "OSFileSystemLoader (real scratch directory)", "loaders/httpfs", "loaders/embedfs", "loaders/multi"},
@@ -48,7 +48,7 @@ var props = map[string]*propCfg{
 	},
 	"C05": {
 		Engine: "execsim", Level: "exploration",
-		QuickRuns: 40000, ThoroughRuns: 10000000, QuickSeconds: 45, ThoroughSeconds: 1500, TimeoutS: 30,
+		QuickRuns: 100000, ThoroughRuns: 10000000, QuickSeconds: 45, ThoroughSeconds: 1500, TimeoutS: 30,
 		Rule:        "one run = one generated nest of if/else-if/else and range (0/1/2-variable forms, := and =) over typed/interface slices, pointer-to-slice, arrays, ints(a,b), single- and multi-entry maps, channels fed by producer goroutines on virtual time, index-providing and index-less custom Rangers, empty and non-empty, re-ranged and nested; executed 1-3 times under the adversarial simulated ranger pool and again under the fresh pool, optionally with a function fault at a tape-chosen dynamic call inside a try around range bodies. The rendering is compared with the documented structure evaluated by a small reference (map iterations as multisets). Non-trivial = the program contains at least one if or range; distinct = hash of (program, subjects, fault plans).",
 		Assumptions: append([]string{"the reference evaluator implements only the documented if/range rules (conditions from a fixed truthiness table of scalars, nil, pointers, maps, slices, non-zero structs)", "map iteration order is free: multi-entry map ranges have leaf bodies and are compared as multisets", "ints() is not ranged with '=' (its values alias the ranger's counters; C07's concern)"}, stdAssume...),
 		Real:        []string{"lexer", "parser (else-if desugaring)", "interpreter (NodeIf, NodeRange, getRanger, rangers)", "ints() built-in", "fastprinter"},
@@ -56,7 +56,7 @@ var props = map[string]*propCfg{
 	},
 	"C12": {
 		Engine: "execsim", Level: "fault_enumeration",
-		QuickRuns: 4000, ThoroughRuns: 1000000, QuickSeconds: 45, ThoroughSeconds: 1500, TimeoutS: 30,
+		QuickRuns: 10000, ThoroughRuns: 1000000, QuickSeconds: 45, ThoroughSeconds: 1500, TimeoutS: 30,
 		Rule:        "one run = one generated world with failure-site placeholders in every file (executed template, included, imported block, extended parent, exec target; any nesting of range/if/block/yield-content/include; outside try). For every reached site (capped per run) x every failure class (65 classes of self-detected failures, rotated when capped) the placeholder is replaced by a failing action on the same line, and for the function-reports-an-error class every dynamic call of the site (first 3) panics with an error. Judged: error returned not panic; message names the site's file and 1-based line; writer holds exactly the fault-free prefix up to the site (streaming: also at the fault instant). Non-trivial = at least one planted failure judged; distinct = hash of (sources, data).",
 		Assumptions: append([]string{"failing actions are single-line, so 'the action's line' is unambiguous", "Go runtime.Errors (integer division by zero) are not demanded by the statement and not planted"}, stdAssume...),
 		Real:        []string{"lexer", "parser (node positions)", "interpreter", "built-in functions", "InMemLoader", "fastprinter"},
@@ -64,7 +64,7 @@ var props = map[string]*propCfg{
 	},
 	"C13": {
 		Engine: "execsim", Level: "fault_enumeration",
-		QuickRuns: 30000, ThoroughRuns: 5000000, QuickSeconds: 45, ThoroughSeconds: 1500, TimeoutS: 30,
+		QuickRuns: 60000, ThoroughRuns: 5000000, QuickSeconds: 45, ThoroughSeconds: 1500, TimeoutS: 30,
 		Rule:        "one run = one generated world containing one instrumented try statement (bracketed by mark() calls, followed by state probes of '.', isset of every variable incl. the catch variable, yield content, Execute variables) placed under tape-chosen enclosing constructs; EVERY dynamic probe call inside its body is made the failing one (plus the fault-free run and the twin program with the try wrapper removed). Non-trivial = at least one fault point inside the body was judged by the spliced-output oracle; distinct = hash of (sources, data, catch form).",
 		Assumptions: append([]string{"bodies only declare their own variables (roll-back of assignments to outer variables is not demanded)", "try statements dynamically nested in another try/exec are skipped by the spliced-output oracle (their offsets are not observable)"}, stdAssume...),
 		Real:        []string{"lexer", "parser", "interpreter (executeTry and all enclosing constructs)", "InMemLoader", "fastprinter"},
@@ -72,7 +72,7 @@ var props = map[string]*propCfg{
 	},
 	"C10": {
 		Engine: "execsim", Level: "fault_enumeration",
-		QuickRuns: 3000, ThoroughRuns: 1000000, QuickSeconds: 45, ThoroughSeconds: 1500, TimeoutS: 30,
+		QuickRuns: 6000, ThoroughRuns: 1000000, QuickSeconds: 45, ThoroughSeconds: 1500, TimeoutS: 30, OrderSample: 160,
 		Rule:        "one run = one generated template world + one history: for EVERY dynamic fault point (k-th probe call panics with an error, or k-th writer Write fails) of a failing execution, followed by EVERY probe template of the world, executed on the runtime the failed execution released (adversarial simulated pool); each call compared with its alone-run (fresh Set, fresh pool). Non-trivial = the history contained at least one failed execution whose runtime was reused; distinct = hash of (sources, data, history).",
 		Assumptions: append([]string{"residue is judged through observable behaviour (bytes, error text, template structure hash), not by inspecting Runtime fields"}, stdAssume...),
 		Real:        []string{"lexer", "parser", "interpreter (Execute, Runtime.recover)", "default cache", "InMemLoader", "fastprinter"},
